@@ -50,8 +50,10 @@ func (_this *MarkedObjectKeyableRule) OnArrayBegin(ctx *Context, arrayType event
 	ctx.BeginArrayKeyable("marked object (keyable)", arrayType)
 }
 func (_this *MarkedObjectKeyableRule) OnChildContainerEnded(ctx *Context, dataType DataType) {
+	ctx.markerID = ctx.CurrentEntry.MarkerID
 	ctx.UnstackRule()
 	ctx.CurrentEntry.Rule.OnChildContainerEnded(ctx, dataType)
+	ctx.MarkObject(dataType)
 }
 
 // =============================================================================
